@@ -6,6 +6,11 @@ from vcheck import sh, BIN, REPO
 
 # coq/Table/GrammarTie.v proves that the HAVING derivation trees are derivations of the grammar table regenerated from
 # grammar.SemanticBQL(): the Table project therefore needs the Grammar project and its translator
+# Does the CURRENT tree compare cells by value (repairs F27 / F28) or by formatted strings (as found)?  The model side of every
+# verdict is told which engine it describes; this is a constant of the tree, never probed at run time.
+VALUE_MODE = True            # repo commits fd030b0 (ORDER BY / GROUP BY) and ca461fe (HAVING)
+VM = "true" if VALUE_MODE else "false"
+
 GO_CMDS = ["gengrammar", "h_table"]
 TRANSLATORS = ["gengrammar"]
 COQ_PROJECTS = ["Grammar", "Table"]
@@ -24,7 +29,7 @@ HEADER = """From Coq Require Import List ZArith NArith Bool.
 From Coq.Strings Require Import Byte.
 From Coq.Floats Require Import SpecFloat.
 Import ListNotations.
-From BWTable Require Import Cells Fmt Sort SortSpec Limit %s Corr.
+From BWTable Require Import Cells Fmt Sort ValueOrder SortSpec Limit %s Corr.
 Open Scope Z_scope.
 """
 
